@@ -61,6 +61,12 @@ __CPROVER_assigns(*targetForceX, *targetForceY, *targetForceZ, *targetPotential,
 
 #ifdef SPEC_PART_HARNESS
 REAL nondet_real(void);
+#ifndef CFG_NS
+#define CFG_NS 1
+#endif
+#ifndef CFG_NT
+#define CFG_NT 1
+#endif
 /*@ harness h_nonmutual enforce=P2P_NonMutualParticles solver=cvc5-fpa props=C20,C15 timeout=1200 */
 void h_nonmutual(void)
 {
@@ -100,6 +106,78 @@ void lemma_mutual_swapped(void)
   for(int k = 0; k < 4; ++k) __CPROVER_assert(SAME(a[k], d[k]), "C20: mutual == one-sided call on the source side, bit for bit");
   CANARY();
 }
+
+/* ---- the loop routines: BOUNDED stand-in (<= 2 sources x <= 2 targets, <= 3 particles for the inner routine),
+ * real extracted bodies, complete unwinding, all coordinates / charges / initial accumulators symbolic.
+ * The expected result is built from the single-pair specification spec_pair in the documented accumulation order
+ * (per target: partial sums over the sources, then one update of the target; sources updated pair by pair). */
+static void mk_vals(struct ARRC *v, const REAL col[4][3]) { for(int k = 0; k < 4; ++k) v->d[k] = col[k]; }
+static void mk_rhs(struct ARRM *v, REAL col[4][3]) { for(int k = 0; k < 4; ++k) v->d[k] = col[k]; }
+
+/*@ harness bounded_full_mutual plain=1 unwind=6 enumerate=CFG_NS:0..2;CFG_NT:0..2 solver=cvc5-fpa bounded=sources<=2,targets<=2 props=C20,C15 timeout=900 */
+void bounded_full_mutual(void)
+{
+  REAL s[4][3], t[4][3], sr[4][3], tr[4][3], es[4][3], et[4][3]; const long ns = CFG_NS, nt = CFG_NT;
+  for(int k = 0; k < 4; ++k) for(int i = 0; i < 3; ++i) { es[k][i] = sr[k][i]; et[k][i] = tr[k][i]; }
+  for(long it = 0; it < 2; ++it) if(it < nt) {
+    REAL f[4] = {0, 0, 0, 0};
+    for(long is = 0; is < 2; ++is) if(is < ns) {
+      struct pair_upd u = spec_pair(s[0][is], s[1][is], s[2][is], s[3][is], t[0][it], t[1][it], t[2][it], t[3][it]);
+      f[0] += u.fx; f[1] += u.fy; f[2] += u.fz; f[3] += u.pot;
+      es[0][is] -= u.fx; es[1][is] -= u.fy; es[2][is] -= u.fz;
+      es[3][is] += VSQRT((REAL)1.0 / ((s[0][is] - t[0][it]) * (s[0][is] - t[0][it]) + (s[1][is] - t[1][it]) * (s[1][is] - t[1][it]) + (s[2][is] - t[2][it]) * (s[2][is] - t[2][it]))) * t[3][it];
+    }
+    for(int k = 0; k < 4; ++k) et[k][it] += f[k];
+  }
+  struct ARRC sv, tv; struct ARRM srv, trv;
+  mk_vals(&sv, s); mk_vals(&tv, t); mk_rhs(&srv, sr); mk_rhs(&trv, tr);
+  P2P_FullMutualScalar(&sv, &srv, ns, &tv, &trv, nt);
+  for(int k = 0; k < 4; ++k) for(long i = 0; i < 2; ++i) {
+    if(i < nt) __CPROVER_assert(SAME(tr[k][i], et[k][i]), "C20: mutual loop: every target accumulates the elementary update of every source, once");
+    if(i < ns) __CPROVER_assert(SAME(sr[k][i], es[k][i]), "C20: mutual loop: every source receives the opposite force and the potential of the target's charge");
+  }
+  CANARY();
+}
+/*@ harness bounded_full_remote plain=1 unwind=6 enumerate=CFG_NS:0..2;CFG_NT:0..2 solver=cvc5-fpa bounded=sources<=2,targets<=2 props=C20,C15 timeout=900 */
+void bounded_full_remote(void)
+{
+  REAL s[4][3], t[4][3], tr[4][3], et[4][3]; const long ns = CFG_NS, nt = CFG_NT;
+  for(int k = 0; k < 4; ++k) for(int i = 0; i < 3; ++i) et[k][i] = tr[k][i];
+  for(long it = 0; it < 2; ++it) if(it < nt) {
+    REAL f[4] = {0, 0, 0, 0};
+    for(long is = 0; is < 2; ++is) if(is < ns) {
+      struct pair_upd u = spec_pair(s[0][is], s[1][is], s[2][is], s[3][is], t[0][it], t[1][it], t[2][it], t[3][it]);
+      f[0] += u.fx; f[1] += u.fy; f[2] += u.fz; f[3] += u.pot;
+    }
+    for(int k = 0; k < 4; ++k) et[k][it] += f[k];
+  }
+  REAL s0[4][3]; for(int k = 0; k < 4; ++k) for(int i = 0; i < 3; ++i) s0[k][i] = s[k][i];
+  struct ARRC sv, tv; struct ARRM trv;
+  mk_vals(&sv, s); mk_vals(&tv, t); mk_rhs(&trv, tr);
+  P2P_GenericFullRemoteScalar(&sv, ns, &tv, &trv, nt);
+  for(int k = 0; k < 4; ++k) for(long i = 0; i < 2; ++i) if(i < nt) __CPROVER_assert(SAME(tr[k][i], et[k][i]), "C20: remote loop: every target accumulates the elementary update of every source, once");
+  for(int k = 0; k < 4; ++k) for(int i = 0; i < 3; ++i) __CPROVER_assert(SAME(s[k][i], s0[k][i]), "C20: remote loop writes target results only");
+  CANARY();
+}
+/*@ harness bounded_inner plain=1 unwind=6 enumerate=CFG_NT:0..3 solver=cvc5-fpa bounded=particles<=3 props=C20,C15 timeout=900 */
+void bounded_inner(void)
+{
+  REAL t[4][3], tr[4][3], et[4][3]; const long n = CFG_NT;
+  for(int k = 0; k < 4; ++k) for(int i = 0; i < 3; ++i) et[k][i] = tr[k][i];
+  for(long i = 0; i < 3; ++i) for(long j = i + 1; j < 3; ++j) if(j < n) {
+    /* every unordered pair once, never the self term; i plays the target, j the source */
+    struct pair_upd u = spec_pair(t[0][j], t[1][j], t[2][j], t[3][j], t[0][i], t[1][i], t[2][i], t[3][i]);
+    et[0][i] += u.fx; et[1][i] += u.fy; et[2][i] += u.fz; et[3][i] += u.pot;
+    et[0][j] -= u.fx; et[1][j] -= u.fy; et[2][j] -= u.fz;
+    et[3][j] += VSQRT((REAL)1.0 / ((t[0][j] - t[0][i]) * (t[0][j] - t[0][i]) + (t[1][j] - t[1][i]) * (t[1][j] - t[1][i]) + (t[2][j] - t[2][i]) * (t[2][j] - t[2][i]))) * t[3][i];
+  }
+  struct ARRC tv; struct ARRM trv;
+  mk_vals(&tv, t); mk_rhs(&trv, tr);
+  P2P_GenericInnerScalar(&tv, &trv, n);
+  for(int k = 0; k < 4; ++k) for(long i = 0; i < 3; ++i) if(i < n) __CPROVER_assert(SAME(tr[k][i], et[k][i]), "C20: in-leaf loop: every unordered pair of distinct particles interacts exactly once, no self term");
+  CANARY();
+}
+
 /* sign and scaling on an exactly representable sub-domain: source on the x axis at distance 2^e from the target,
  * charges powers of two; with sqrt(2^-2e) == 2^-e the potential is q_j / r and the force q_i q_j (x_j - x_i) / r^3 exactly */
 /*@ harness lemma_exact_domain replace=P2P_NonMutualParticles unwind=14 props=C20 timeout=1200 */
